@@ -101,6 +101,7 @@ static CO_ERR COTInt32Write(struct CO_OBJ_T *obj, struct CO_NODE_T *node, void *
     CO_UNUSED(node);
     ASSERT_PTR_ERR(obj, CO_ERR_BAD_ARG);
     ASSERT_PTR_ERR(buffer, CO_ERR_BAD_ARG);
+    ASSERT_EQU_ERR(size, COT_ENTRY_SIZE, CO_ERR_BAD_ARG);
 
     /* buffer may be unaligned (e.g. SDO transfer buffer) */
     for (n = 0; n < COT_ENTRY_SIZE; n++) {
